@@ -82,10 +82,11 @@ Proof.
     destruct c as [|b c'].
     + cbn [hdlink is_nil fst snd]. cbn [map] in Hl. subst l. split; [|reflexivity].
       exists []. cbn [qheap qback qsize map]. auto.
-    + cbn [hdlink is_nil]. replace (called qpop_ncalls_remove) with true by reflexivity.
+    + cbn [hdlink is_nil]. rewrite g_pop_body. cbn [seq_env]. unfold pop_remove, pop_size, pop_reset.
+      replace (called qpop_ncalls_remove) with true by reflexivity.
       destruct (remove_ok T zero h [] 0 b c' Hwf) as [h' [E [Hwf' [Hlen' [Hself [Hsame Hv]]]]]].
-      cbn [app] in Hwf'. rewrite E. cbn [fst snd].
-      rewrite (list_is_empty_ok T zero h' c' Hwf'). cbn [fst snd]. cbn [map] in Hl. subst l.
+      cbn [app] in Hwf'. rewrite E. cbn [bind fst snd].
+      rewrite (list_is_empty_ok T zero h' c' Hwf'). cbn [bind fst snd]. cbn [map] in Hl. subst l.
       split; [|reflexivity].
       exists c'. cbn [qheap qback qsize]. split; [assumption|]. split; [|split].
       * apply map_ext. intros; symmetry; apply Hv.
